@@ -161,6 +161,31 @@ func main() {
 		}
 		cold = append(cold, grp)
 	}
+	// two schemas over ONE enum slice (shared by content, with spare capacity) with different Defaults, absent
+	// inputs: whatever a schema does with its Default must stay out of the enum the application lent it
+	for i := 0; i < 12; i++ {
+		var grp []int
+		for _, dflt := range []string{"x1", "x2", "a"} {
+			d := eng.D{K: "s", S: dflt}
+			n := &eng.Node{Kind: "prim", PK: "str", Dflt: &d}
+			t := eng.TestSpec{ID: 1, Name: "oneof"}
+			for j := 0; j < 3+i%3; j++ {
+				t.Args = append(t.Args, eng.D{K: "s", S: fmt.Sprintf("e%d_%d", i, j)})
+			}
+			t.Args = append(t.Args, eng.D{K: "s", S: "a"})
+			n.Tests = []eng.TestSpec{t}
+			schema := eng.Build(n, eng.NewRecorder())
+			for k := 0; k < 3; k++ {
+				c := &eng.Case{ID: len(jobs), Schema: n, Mode: "p", Input: eng.VNil(), Dest: eng.ZeroD(n)}
+				if k == 2 {
+					c.Input = eng.VStr("a")
+				}
+				grp = append(grp, len(jobs))
+				jobs = append(jobs, &job{c: c, schema: schema})
+			}
+		}
+		cold = append(cold, grp)
+	}
 	for _, j := range jobs {
 		j.c.Schema.GoType() // the harness caches reflect types lazily: do it before the goroutines start
 		j.c.Schema.GoTypeAlt()
@@ -232,6 +257,10 @@ func main() {
 			mism++
 			firstMismatch.CompareAndSwap(nil, fmt.Sprintf("case %d\nalone:      %.600s\nconcurrent: %.600s", o.job, jobs[o.job].want, o.got))
 		}
+	}
+	if w := eng.EnumsIntact(); w != "" {
+		mism++
+		firstMismatch.CompareAndSwap(nil, "an execution wrote into the enum slice given to OneOf: "+w)
 	}
 	sum := map[string]any{"calls": done, "mismatches": mism, "workers": *workers, "shared_schemas": *nSchemas, "jobs": len(jobs), "cold_groups": len(cold)}
 	if v := firstMismatch.Load(); v != nil {
